@@ -38,7 +38,7 @@ func main() {
 	// and the same integer in its JSON carrier (float64) is refused by every setter.
 	fmt.Println("F1 SetConfigOption(a/int, int64(1000000)):", config.SetConfigOption("a/int", int64(1000000)), "-> getter", aInt())
 	data, _ := config.MapToJSON(map[string]interface{}{"a/int": config.GetActiveConfigValues()["a/int"]}) // what SaveConfig writes
-	loaded, _ := config.JSONToMap(data)                                                                    // what loadConfig reads
+	loaded, _ := config.JSONToMap(data)                                                                   // what loadConfig reads
 	errs, _ := config.ReplaceConfig(loaded)
 	fmt.Printf("F1 after save->load: %d validation error(s) %v, getter %d (want 1000000)\n", len(errs), errs, aInt())
 	fmt.Println("F1 SetConfigOption(a/int, float64(1000000)):", config.SetConfigOption("a/int", float64(1000000)))
